@@ -1,6 +1,7 @@
 #ifndef FRG_FORMATTING_HPP
 #define FRG_FORMATTING_HPP
 
+#include <limits.h>
 #include <stdarg.h>
 #include <cstddef>
 #include <stdint.h>
@@ -110,11 +111,13 @@ namespace _fmt_basics {
 		int r = 0; // amount of times we repeated the last grouping
 		size_t extra = 0; // extra chars printed due to seperator
 
+		// Called for each digit, least significant first. A group is only closed (and its
+		// separator accounted for) once a further digit follows it.
 		auto step_grouping = [&] () {
 			if (!group_thousands)
 				return;
 
-			if (++c == locale_opts.grouping[g]) {
+			if (c > 0 && c == locale_opts.grouping[g] && locale_opts.grouping[g] != CHAR_MAX) {
 				if (locale_opts.grouping[g + 1] > 0)
 					g++;
 				else
@@ -122,15 +125,19 @@ namespace _fmt_basics {
 				c = 0;
 				extra += locale_opts.thousands_sep_size;
 			}
+			c++;
 		};
 
+		// Called after each emitted digit that is followed by another one; undoes step_grouping.
 		auto emit_grouping = [&] () {
 			if (!group_thousands)
 				return;
 
 			if (--c == 0) {
 				sink.append(locale_opts.thousands_sep);
-				if (!r || !--r)
+				if (r)
+					r--;
+				else
 					g--;
 				c = locale_opts.grouping[g];
 			}
@@ -148,9 +155,6 @@ namespace _fmt_basics {
 		if (k < precision)
 			for (int i = 0; i < precision - k; i++)
 				step_grouping();
-
-		if (!c)
-			c = locale_opts.grouping[g];
 
 		// The sign and the prefix are part of the field; zero padding goes between them and the digits.
 		char sign = 0;
